@@ -29,6 +29,7 @@ DOC = {
         "C02-R1": "calculate_penalty evaluates and concatenates every optimisation group once; get_full_penalty ranges over all dataset models / all aligned indices (no slice, no filter besides the global-model dispatch) and appends the clp penalties once, after the residuals; estimate() visits every dataset / index",
         "C02-R2": "stages in order, each once: megacomplex scale (in calculate_dataset_matrix) -> dataset scale (create_scaled_matrix / align_matrices on every return path) -> relations -> constraints -> weight; data is multiplied by the weight exactly once (DataProvider.__init__)",
         "C02-R3": "inside every per-index loop each per-index accessor is called with exactly the loop position and each interval test receives the axis value",
+        "C02-R4": "full models: rows of kron(global, model) are flat(G,M) like the flattened data and the flattened weight ((M,G).T.flatten()); the Kronecker matrix is paired with the flattened data of the same dataset",
         "C02-R5": "equal-area penalty = |sum(source area) - parameter * sum(target area)| * weight",
     },
     "declined": ["entry-for-entry numeric equality with an independent evaluation (values)", "the value dependent outcome of DatasetGroup.is_linkable"],
@@ -244,6 +245,16 @@ def r2(ctx) -> None:
             d.kind == "assign" and d.value is seq["align_matrices"] for d in flc.reaching("group_matrix", lib.stmt_of(c))), cam, lib.stmt_of(c),
             "reduce_matrix receives the scaled stacked matrix")
         c2 = seq["align_matrices"]
+        # matrices and scales of one aligned index are listed over the same datasets in the same order
+        loop = next((a for a in lib.ancestors(c2, cam.node) if isinstance(a, ast.For)), None)
+        sc_defs = [d for d in flc.reaching("matrix_scales", lib.stmt_of(c2)) if d.kind == "assign"]
+        ok_sc = loop is not None and len(sc_defs) == 1 and lib.is_inside(sc_defs[0].stmt, loop) and isinstance(sc_defs[0].value, ast.ListComp) \
+            and norm(sc_defs[0].value.generators[0].iter) == "self._data_provider.group_definitions[group_label]" and not sc_defs[0].value.generators[0].ifs
+        zips = [z for z in lib.calls(loop) if norm(z.func) == "zip"] if loop is not None else []
+        ok_mc = any(z.args and norm(z.args[0]) == "self._data_provider.group_definitions[group_label]" for z in zips)
+        ctx.ob("C02-R2", "calculate_aligned_matrices/scales-of-the-stacked-datasets", ok_sc and ok_mc, cam, sc_defs[0].stmt if sc_defs else cam.node,
+               "for every aligned index the scale list is built over exactly the datasets whose matrices are stacked there "
+               "(same group definition, same order); a list built once for the whole group pairs scales with the wrong datasets")
         ctx.ob("C02-R2", "calculate_aligned_matrices/scales-passed", len(c2.args) == 2 and norm(c2.args[0]) == "matrix_containers" and norm(c2.args[1]) == "matrix_scales",
                cam, lib.stmt_of(c2), "align_matrices receives the matrices and their dataset scales")
         w = seq["create_weighted_matrix"]
@@ -433,9 +444,16 @@ def r5(ctx) -> None:
                "once per evaluation, after all aligned indices")
 
 
+def r4(ctx) -> None:
+    """Kronecker / flatten pairing of the full-model path (shared with C03-R5)."""
+    from glint.rules.c03 import r5 as layout
+
+    layout(ctx, rule="C02-R4", full_model_only=True)
+
+
 def check(ctx) -> None:
     for g in check.groups:
         g(ctx)
 
 
-check.groups = [r1, r2, r3, r5]
+check.groups = [r1, r2, r3, r4, r5]
